@@ -124,7 +124,7 @@ def parses(text):
 
 class C20(Prop):
     id = "C20"
-    quick_cases = 160
+    quick_cases = 200
     thorough_cases = 2400
     time_budget = {"quick": 150, "thorough": 1500}
     rule = (
@@ -143,6 +143,19 @@ class C20(Prop):
 
     # ---- generation --------------------------------------------------------------------
     def gen(self, r, i, run):
+        if i < 48:
+            # boundary shapes, enumerated: only the truth kind is given (one or two files) / one more file elsewhere
+            t = projgen.KINDS[i % 3]
+            j = i // 3
+            tshape = [["T"], ["M"], ["T", "T"], ["M", "T"]][j % 4]
+            named = (j // 4) % 2 == 0
+            other = [None, ["T"]][(j // 8) % 2]
+            kinds_ = {k: {"files": None, "named": False} for k in projgen.KINDS}
+            kinds_[t] = {"files": tshape, "named": named}
+            if other is not None:
+                ok = [k for k in projgen.KINDS if k != t][0]
+                kinds_[ok] = {"files": other, "named": True}
+            return {"family": "cli", "truth": t, "kinds": kinds_, "sp": [True, True], "gen_out_exists": False, "seed": i}
         if i % 2 == 0:
             shape = {
                 "family": "cli",
